@@ -85,15 +85,24 @@ def run(ctx, rep):
     rm_nodes = P.calls(r"fs::remove_file$")
     rm_set = set(rm_nodes)
 
+    sync_true = all(s_["rv"]["fields"][s_["rv"]["fnames"].index("sync")].get("int") == "1"
+                    for _b, _bi, _si, s_ in ctx.all_aggregates(r"flush_request::WriteRequest$") if "sync" in s_["rv"]["fnames"])
+    batch_pushes = {n for n in P.calls(r"Vec::<T, A>::push$")
+                    if contains(event_args(g, n)[1], lambda x: isinstance(x, tuple) and len(x) == 3 and x[0] == "as" and x[2] == "Write")}
+
     def step3(ms, pi, qi, learn):
-        synced, le1, failed = ms
+        synced, le1, failed, last_write = ms
         n = P.gnode(pi)
+        if n in batch_pushes:
+            last_write = True
         if n in write_set or n in push_set:
             synced = False
         if n in mut_set and not cmatch(g.term(n), r"IndexMut<I>>::index_mut$"):
             le1 = False
         for origin, v in norm_learn(learn):
             cn = origin_call(origin)
+            if cn is not None and c04.any_sync_closure(ctx, g, cn) and v == "false" and sync_true:
+                return None      # dead by R04.5: every request has sync = true
             if c04.len_le1_fact(g, origin, v):
                 le1 = True
             if cn is not None and cmatch(g.term(cn), r"Vec::<T, A>::is_empty$") and v == "true" and c04.FILES(event_args(g, cn)[0]):
@@ -103,10 +112,26 @@ def run(ctx, rep):
                     failed = True
                 elif v in OKV and (c04.is_sync_of_last(g, cn) or (c04.is_sync_of_index(g, cn, 0) and le1)):
                     synced, failed = True, False
-        return (synced, le1, failed)
+            # request kind being handled (switch on the WorkerRequest discriminant)
+            if isinstance(origin, tuple) and origin and origin[0] == "place" and v in ("RemoveChunks", "AppendFile", "GetFlushStat"):
+                sw = g.term(origin[2])
+                if sw.get("enum", "").endswith("WorkerRequest"):
+                    if v == "RemoveChunks" and not last_write:
+                        return None      # infeasible by R08.2 + FIFO: a RemoveChunks request directly follows the flush's Write
+                    last_write = False
+        return (synced, le1, failed, last_write)
 
-    seen = run_monitor(P, (False, False, False), step3)
+    seen = run_monitor(P, (False, False, False, False), step3)
     for n in rm_nodes:
+        unsynced = next(((pi, ms) for (pi, ms) in seen if P.gnode(pi) == n and not ms[0] and not ms[2]), None)
+        if unsynced:
+            rep.violation("R08.3", "worker|remove_file-without-sync-since-last-write", "fs::remove_file",
+                          "a chunk file can be unlinked although no successful sync has covered the newest file since bytes were last written to "
+                          "it (by a Write batch, or by the caller when it created the chunk and wrote its head State record): the purge that made "
+                          "the file obsolete may exist only in an unsynced file", where=g.where(n),
+                          path=describe_path(P, [k[0] for k in path_to(seen, unsynced)]))
+        else:
+            rep.ok("R08.3", "fs::remove_file (durability)", "a successful sync region covers the newest file since the last write / AppendFile", where=g.where(n))
         bad = next(((pi, ms) for (pi, ms) in seen if P.gnode(pi) == n and ms[2]), None)
         if bad:
             rep.violation("R08.3", "worker|remove_file-after-failed-sync", "fs::remove_file",
